@@ -448,6 +448,159 @@ def rule_D(ck, units):
                                         f.full[:80], v['n'], f.where(slots[0]), f.where(reads[-1])), trivial=not slots)
 
 
+SCRATCH_TYPES = ('multi_array', 'std::vector', 'std::array', 'numa_vector')
+
+
+def rule_E(ck, units, only=None, floor=3):
+    """loop-carried scratch: an array declared outside a loop, element-wise (partially) written inside one iteration and then
+    handed as a whole to a callee in the same iteration (QR factorisation, small inverse, ...) must be completely
+    re-initialised in every iteration before that use - otherwise the result for one row / aggregate depends on what the
+    previous one (of the same thread) left behind."""
+    ck.rule('E.loop-scratch-reinitialised', 'a scratch array declared outside a loop, written element-wise inside an iteration and passed as a whole to a callee in that iteration is fully '
+                                            're-initialised (assign / fill / resize-and-complete-fill / zeroing loop nest) on every path from the start of the iteration to that call', floor)
+    done = set()
+    for u in units.values():
+        an = Analyzer([u])
+        for f in u.funcs:
+            if f.cfg is None or (f.file, f.line) in done or (only is not None and not only(f)):
+                continue
+            decls = {}
+            for n in f.nodes.values():
+                if n['k'] == 'decl':
+                    for v in n['v']:
+                        t = u.type(f.decl(v['d']).get('ct')) or ''
+                        if (any(c in t for c in SCRATCH_TYPES) or t.rstrip().endswith(']')) and not f.decl(v['d']).get('ref') and f.decl(v['d']).get('k') == 'local':
+                            decls[v['d']] = (n, v)
+            if not decls:
+                continue
+            loc = locate(f)
+            cfg = f.cfg
+            any_inst = False
+            for d, (dn, v) in sorted(decls.items()):
+                def base_is(e):
+                    e = unwrap(e)
+                    return e is not None and e['k'] == 'ref' and e['d'] == d
+
+                def whole(a):
+                    a = unwrap(a)
+                    if a is None:
+                        return False
+                    if base_is(a):
+                        return True
+                    if a['k'] == 'call' and a.get('m') in ('data', 'begin', 'cbegin') and a.get('obj') is not None and base_is(a['obj']):
+                        return True
+                    if a['k'] == 'un' and a['op'] == '&':
+                        e = unwrap(a['e'])
+                        if e is not None and e['k'] == 'idx' and base_is(e['b']):
+                            return True
+                        if e is not None and e['k'] == 'call' and e.get('op') == '()' and e.get('obj') is not None and base_is(e['obj']):
+                            return True
+                    return False
+                writes = []
+                for n in f.nodes.values():
+                    if n['k'] == 'bin' and n['op'] == '=':
+                        lhs = unwrap(n['x'])
+                        if lhs is not None and lhs['k'] == 'idx' and base_is(lhs['b']):
+                            writes.append((n, [lhs['x']]))
+                        elif lhs is not None and lhs['k'] == 'call' and lhs.get('op') == '()' and lhs.get('obj') is not None and base_is(lhs['obj']):
+                            writes.append((n, lhs.get('a', [])))
+                if not writes:
+                    continue
+                for L in [n for n in f.nodes.values() if n['k'] in ('for', 'while', 'rfor', 'do')]:
+                    inL = {x['i'] for x in walk(L)}
+                    if dn['i'] in inL:
+                        continue
+                    if any(a['k'] in ('for', 'while', 'rfor', 'do') and dn['i'] not in {x['i'] for x in walk(a)} for a in f.ancestors(L)):
+                        continue      # not the outermost loop below the declaration
+                    ws = [(n, idx) for n, idx in writes if n['i'] in inL]
+                    def reads_it(n):
+                        for i_, a in enumerate(n.get('a', [])):
+                            if not whole(a):
+                                continue
+                            if i_ not in n.get('mr', []):
+                                return True                     # const access: a read
+                            eff = an.call_effect(f, n, i_)
+                            if eff in ('read', 'rw', None):
+                                return True                     # may read what it gets (unknown callees are assumed to)
+                        return False
+                    reads = [n for n in walk(L) if n['k'] == 'call' and reads_it(n) and not (n.get('f') or '').startswith(('std::fill', 'std::copy', 'std::sort'))]
+                    if not ws or not reads:
+                        continue
+                    # full (re)initialisations inside L
+                    fills = set()
+                    for n in walk(L):
+                        if n['k'] == 'call' and n['i'] in loc:
+                            if n.get('f') in ('std::fill', 'std::fill_n') and n.get('a') and whole(n['a'][0]):
+                                fills.add(loc[n['i']][0])
+                            if n.get('m') in ('assign',) and n.get('obj') is not None and base_is(n['obj']):
+                                fills.add(loc[n['i']][0])
+                    for n, idx in ws:
+                        inner = [a for a in f.ancestors(n) if a['k'] == 'for' and a['i'] in inL and a is not L]
+                        iv = set()
+                        for a in inner:
+                            iv |= loop_vars(a)
+                        # every index is an affine combination in which induction variables of the nested loops occur (each loop once, unconditionally):
+                        # a complete sweep over the (resized) extent
+                        used = set()
+                        for i_ in idx:
+                            used |= {y['d'] for y in walk(i_) if y['k'] == 'ref' and y['d'] in iv}
+                        guarded = False
+                        cur = n
+                        for a in f.ancestors(n):
+                            if a is L:
+                                break
+                            if a['k'] == 'if':
+                                inner_ids = {x['i'] for x in walk(a)}
+                                # an `if` that lies inside the nested fill loops makes the sweep partial; one that encloses the whole nest does not
+                                if any(l_['i'] in inner_ids for l_ in inner) is False:
+                                    guarded = True
+                            if a['k'] == 'for' and a is not L and (a.get('init') is None or a.get('c') is None):
+                                guarded = True
+                        if inner and used and len(used) == len({tuple(sorted(loop_vars(a) & used)) for a in inner if loop_vars(a) & used}) and not guarded and n['i'] in loc:
+                            # reaching the header of the outermost nested loop stands for the complete sweep (an empty extent has nothing to initialise)
+                            outer = inner[-1]
+                            hb = [b for b, blk in cfg.blocks.items() if blk.get('term') == outer['i']]
+                            if hb:
+                                fills.update(hb)
+                            else:
+                                ids = {x['i'] for x in walk(outer)}
+                                fills.update({loc[i][0] for i in ids if i in loc})
+                    lcond = [b for b, blk in cfg.blocks.items() if blk.get('term') == L['i']]
+                    if not lcond:
+                        continue
+                    H = lcond[0]
+                    entry = cfg.succ[H][0] if cfg.succ[H] else None
+                    any_inst = True
+                    bad = None
+                    for r in reads:
+                        if r['i'] not in loc:
+                            continue
+                        target = loc[r['i']][0]
+                        seen, work = set(), [entry]
+                        reach = False
+                        while work:
+                            b = work.pop()
+                            if b is None or b in seen or b == H:
+                                continue
+                            seen.add(b)
+                            if b == target:
+                                reach = True
+                                break
+                            if b in fills:
+                                continue
+                            work.extend(cfg.succ[b])
+                        if reach and target not in fills:
+                            bad = r
+                            break
+                    key = '%s|%s|%s' % (f.rel(), f.q, v['n'])
+                    ck.ob('E.loop-scratch-reinitialised', key, f.where(bad) if bad else f.where(L), bad is None,
+                          '' if bad is None else 'in %s: the scratch array `%s` (declared at %s, outside the loop at %s) is written element-wise in an iteration and handed as a whole to `%s` at %s, '
+                                                 'but on some path of the iteration it is not completely re-initialised first: entries left by the previous iteration take part in the result' % (
+                                                     f.full[:80], v['n'], f.where(dn), f.where(L), (bad.get('f') or bad.get('m') or '?').split('::')[-1], f.where(bad)))
+            if any_inst:
+                done.add((f.file, f.line))
+
+
 def main(tier):
     ck = Check('C10', tier, 'C10 (clauses): raw-allocated arrays are completely filled; arrays are freed only by their owner; empty_level never escapes the hierarchy construction.')
     T = os.path.join(ir.VERIF, 'tus')
@@ -459,6 +612,7 @@ def main(tier):
     c17.rule_C(ck, units)
     rule_C(ck, units)
     rule_D(ck, units)
+    rule_E(ck, units, floor=3 if tier == 'quick' else 3)
     # outputs are a function of the inputs only: the multigrid cycle does not read what an earlier application left in
     # its per-level scratch vectors (rules shared with C02)
     import c02
